@@ -17,7 +17,11 @@ import qmeta
 
 
 def build(rng, dt):
-    kind = rng.choice(["mlp", "conv", "ln-mlp"])
+    kind = rng.choice(["mlp", "conv", "ln-mlp", "bigconv"])
+    if kind == "bigconv":
+        # per-output element counts above 128: the low-bit weights are quantized group-wise
+        m = torch.nn.Sequential(torch.nn.Conv2d(32, 4, 3, padding=1), torch.nn.ReLU(), torch.nn.Conv2d(4, 2, (1, 1)), torch.nn.Flatten(), torch.nn.Linear(2 * 4 * 4, 3))
+        return kind, m.to(dt), [2, 32, 4, 4]
     if kind == "mlp":
         inf = rng.choice([6, 160])
         m = torch.nn.Sequential(torch.nn.Linear(inf, 8, bias=rng.random() < 0.8), torch.nn.ReLU(), torch.nn.Linear(8, 3))
